@@ -146,6 +146,44 @@ Proof. reflexivity. Qed.
 Lemma cnt_In r l : In r l <-> 0 < cnt r l.
 Proof. unfold cnt. apply count_occ_In. Qed.
 
+(* multiset equality test *)
+Lemma remove_one_In x l : In x l -> exists l', remove_one x l = Some l' /\ Permutation l (x :: l').
+Proof.
+  induction l as [|y l IH]; intros H; [destruct H|]. simpl.
+  destruct (Nat.eqb_spec x y) as [E|E].
+  - subst. exists l. split; [reflexivity|apply Permutation_refl].
+  - destruct H as [H|H]; [congruence|]. destruct (IH H) as (l' & Hr & Hp).
+    rewrite Hr. exists (y :: l'). split; [reflexivity|].
+    eapply perm_trans; [apply perm_skip; exact Hp|apply perm_swap].
+Qed.
+
+Lemma perm_b_complete l1 : forall l2, Permutation l1 l2 -> perm_b l1 l2 = true.
+Proof.
+  induction l1 as [|x l1 IH]; intros l2 H.
+  - apply Permutation_nil in H. subst. reflexivity.
+  - simpl. assert (Hin : In x l2) by (eapply Permutation_in; [exact H|left; reflexivity]).
+    destruct (remove_one_In x l2 Hin) as (l2' & Hr & Hp). rewrite Hr.
+    apply IH. eapply Permutation_cons_inv. eapply perm_trans; [exact H|exact Hp].
+Qed.
+
+Lemma remove_one_Some x l l' : remove_one x l = Some l' -> Permutation l (x :: l').
+Proof.
+  revert l'. induction l as [|y l IH]; intros l' H; simpl in H; [discriminate|].
+  destruct (Nat.eqb_spec x y) as [E|E].
+  - inversion H; subst. apply Permutation_refl.
+  - destruct (remove_one x l) as [l''|]; [|discriminate]. inversion H; subst.
+    eapply perm_trans; [apply perm_skip; apply IH; reflexivity|apply perm_swap].
+Qed.
+
+Lemma perm_b_sound l1 : forall l2, perm_b l1 l2 = true -> Permutation l1 l2.
+Proof.
+  induction l1 as [|x l1 IH]; intros l2 H; simpl in H.
+  - destruct l2; [constructor|discriminate].
+  - destruct (remove_one x l2) as [l2'|] eqn:E; [|discriminate].
+    apply Permutation_sym. eapply perm_trans; [apply remove_one_Some; exact E|].
+    apply perm_skip. apply Permutation_sym. apply IH. exact H.
+Qed.
+
 (* ================= the static discipline ================= *)
 
 Lemma phases_ok_aux_spec prog : forall seen, phases_ok_aux seen prog = true ->
@@ -190,11 +228,12 @@ Proof. intros H. exact (proj2 (phases_ok_aux_spec prog [] H)). Qed.
 Definition rank_at (st : state) (r : nat) (rs : rstate) : Prop := nth_error (ranks st) r = Some rs.
 
 Inductive step_spec (P : nat) (prog : program) (st : state) : state -> Prop :=
-| SS_send r rs t d :
+| SS_send r rs t d ds :
     rank_at st r rs -> nth_error prog (pc rs) = Some (Phase t d) -> sent rs = false ->
+    Permutation ds (d r) ->
     step_spec P prog st
-      (mkS (upd (ranks st) r (mkR (pc rs) true (nrecv rs) (rlog rs) (rev (send_events t (d r)) ++ revs rs)))
-           (net st ++ send_msgs r t (pc rs) (d r)))
+      (mkS (upd (ranks st) r (mkR (pc rs) true (nrecv rs) (rlog rs) (rev (send_events t ds) ++ revs rs)))
+           (net st ++ send_msgs r t (pc rs) ds))
 | SS_recv r k rs t d m :
     rank_at st r rs -> nth_error prog (pc rs) = Some (Phase t d) -> sent rs = true ->
     nrecv rs < expected P d r -> nth_error (net st) k = Some m -> m_dst m = r -> m_tag m = t ->
@@ -222,10 +261,12 @@ Qed.
 
 Lemma step_to_spec P prog st st' : step P prog st st' -> step_spec P prog st st'.
 Proof.
-  intros [a H]. destruct a as [r|r k|r|r]; simpl in H;
+  intros [a H]. destruct a as [r ds|r k|r|r]; simpl in H;
     destruct (nth_error (ranks st) r) as [rs|] eqn:Hr; try discriminate;
     destruct (nth_error prog (pc rs)) as [[|t d]|] eqn:Hi; try discriminate.
-  - destruct (sent rs) eqn:Hs; [discriminate|]. inversion H; subst. apply SS_send; assumption.
+  - destruct (sent rs) eqn:Hs; [discriminate|]. simpl in H.
+    destruct (perm_b ds (d r)) eqn:Hp; [|discriminate]. simpl in H.
+    inversion H; subst. apply (SS_send P prog st r rs t d ds); try assumption. apply perm_b_sound; exact Hp.
   - destruct (sent rs) eqn:Hs; simpl in H; [|discriminate].
     destruct (Nat.ltb_spec (nrecv rs) (expected P d r)) as [Hn|Hn]; [|discriminate].
     destruct (nth_error (net st) k) as [m|] eqn:Hk; [|discriminate].
@@ -242,9 +283,9 @@ Qed.
 
 Lemma spec_to_step P prog st st' : step_spec P prog st st' -> step P prog st st'.
 Proof.
-  intros H. destruct H as [r rs t d Hr Hi Hs | r k rs t d m Hr Hi Hs Hn Hk Hd Ht | r rs t d Hr Hi Hs Hn | r rs Hr Hi Hall];
+  intros H. destruct H as [r rs t d ds Hr Hi Hs Hp | r k rs t d m Hr Hi Hs Hn Hk Hd Ht | r rs t d Hr Hi Hs Hn | r rs Hr Hi Hall];
     unfold rank_at in Hr.
-  - exists (ASend r). simpl. rewrite Hr, Hi, Hs. reflexivity.
+  - exists (ASend r ds). simpl. rewrite Hr, Hi, Hs, (perm_b_complete _ _ Hp). reflexivity.
   - exists (ARecv r k). simpl. rewrite Hr, Hi, Hs, Hk. simpl.
     apply Nat.ltb_lt in Hn. rewrite Hn. rewrite Hd, Ht, !Nat.eqb_refl. simpl. subst. reflexivity.
   - exists (AAdv r). simpl. rewrite Hr, Hi, Hs. simpl. apply Nat.eqb_eq in Hn. rewrite Hn. reflexivity.
@@ -535,20 +576,20 @@ Lemma Inv_step P prog st st' :
   phases_sep prog -> Inv P prog st -> step_spec P prog st st' -> Inv P prog st'.
 Proof.
   intros Hsep I Hst.
-  destruct Hst as [r0 rs0 t d H0 Hi Hs | r0 k rs0 t d m H0 Hi Hs Hn Hk Hd Ht
+  destruct Hst as [r0 rs0 t d ds H0 Hi Hs Hperm | r0 k rs0 t d m H0 Hi Hs Hn Hk Hd Ht
                   | r0 rs0 t d H0 Hi Hs Hn | r0 rs0 H0 Hi Hall].
   - (* send *)
-    set (rs' := mkR (pc rs0) true (nrecv rs0) (rlog rs0) (rev (send_events t (d r0)) ++ revs rs0)).
+    set (rs' := mkR (pc rs0) true (nrecv rs0) (rlog rs0) (rev (send_events t ds) ++ revs rs0)).
     pose proof (rank_at_lt _ _ _ _ _ I H0) as Hlt.
-    destruct (basic_upd P prog st r0 rs0 rs' (net st ++ send_msgs r0 t (pc rs0) (d r0)) I H0)
+    destruct (basic_upd P prog st r0 rs0 rs' (net st ++ send_msgs r0 t (pc rs0) ds) I H0)
       as (B1 & B2 & B3 & B4).
     { simpl; lia. }
     { simpl. eapply (inv_pc _ _ _ I); eauto. }
     { simpl. intros; lia. }
     { intros m Hm. apply in_app_or in Hm. destruct Hm as [Hm|Hm]; [left; exact Hm|right].
       unfold send_msgs in Hm. apply in_map_iff in Hm. destruct Hm as (x & <- & Hx). simpl.
-      split; [reflexivity|]. exists d. repeat split; auto. }
-    destruct (logs_upd_same P prog st r0 rs0 rs' (net st ++ send_msgs r0 t (pc rs0) (d r0)) I H0)
+      split; [reflexivity|]. exists d. repeat split; auto. eapply Permutation_in; eauto. }
+    destruct (logs_upd_same P prog st r0 rs0 rs' (net st ++ send_msgs r0 t (pc rs0) ds) I H0)
       as (L1 & L2 & L3); try reflexivity.
     constructor; try assumption.
     intros f r rs j Hr.
@@ -557,9 +598,11 @@ Proof.
         [exists rs0|exists rs]; split; auto. }
     destruct Hlog as (rs1 & Hr1 & ->).
     pose proof (inv_cons _ _ _ I f r rs1 j Hr1) as Hc.
-    pose proof (sentcount_upd P prog st r0 rs0 rs' (net st ++ send_msgs r0 t (pc rs0) (d r0)) f r j H0 Hlt)
+    pose proof (sentcount_upd P prog st r0 rs0 rs' (net st ++ send_msgs r0 t (pc rs0) ds) f r j H0 Hlt)
       as Hsc.
-    unfold inflight in *; simpl. rewrite countb_app, countb_send_msgs.
+    assert (Hcnt : cnt r ds = cnt r (d r0)).
+    { unfold cnt. apply (Permutation_count_occ Nat.eq_dec). exact Hperm. }
+    unfold inflight in *; simpl. rewrite countb_app, countb_send_msgs, Hcnt.
     unfold sterm, doneb in Hsc; simpl in Hsc. rewrite Hs in Hsc.
     rewrite andb_false_r, andb_true_r, orb_false_r in Hsc.
     destruct (f r0); simpl in *; [|lia].
@@ -608,7 +651,7 @@ Proof.
       intros r rs Hr. destruct (rank_at_upd _ _ _ _ _ _ _ H0 Hr) as [[-> ->]|[N Hr1]].
       * simpl. unfold logged; simpl. rewrite countb_cons; simpl.
         rewrite Hitem, Nat.eqb_refl. simpl.
-        destruct (inv_cur _ _ _ I r0 rs0 H0) as [A _]. unfold logged in A. rewrite A.
+        destruct (inv_cur _ _ _ I r0 rs0 H0) as [A _]. unfold logged, ftrue in A. simpl in A. rewrite A.
         split; [reflexivity|]. rewrite (dests_at_phase _ _ _ _ Hi). lia.
       * apply (inv_cur _ _ _ I r rs Hr1).
   - (* advance *)
@@ -667,3 +710,857 @@ Proof.
   intros Hsep H. induction H as [|st st' _ IH Hst]; [apply Inv_init|].
   eapply Inv_step; eauto. apply step_to_spec; exact Hst.
 Qed.
+
+(* ================= T1: phase separation ================= *)
+
+(* what a pending wildcard receive can match: only messages of the receiver's own current item *)
+Theorem recv_matches_own_phase P prog st :
+  phases_ok prog = true -> reachable P prog st ->
+  forall r rs t d m, nth_error (ranks st) r = Some rs -> nth_error prog (pc rs) = Some (Phase t d) ->
+    In m (net st) -> m_dst m = r -> m_tag m = t -> m_item m = pc rs.
+Proof.
+  intros Hok Hre.
+  exact (safety P prog st (phases_ok_sep _ Hok) (reachable_Inv P prog st (phases_ok_sep _ Hok) Hre)).
+Qed.
+
+(* every message a rank received while executing item j was sent by item j, to this rank, with j's tag *)
+Theorem received_in_own_phase P prog st :
+  phases_ok prog = true -> reachable P prog st ->
+  forall r rs j m, nth_error (ranks st) r = Some rs -> In (j, m) (rlog rs) ->
+    m_item m = j /\ m_dst m = r /\ j <= pc rs /\ exists d, nth_error prog j = Some (Phase (m_tag m) d).
+Proof.
+  intros Hok Hre r rs j m Hr Hin.
+  pose proof (reachable_Inv P prog st (phases_ok_sep _ Hok) Hre) as I.
+  exact (inv_log _ _ _ I r rs j m Hr Hin).
+Qed.
+
+Lemma count_occ_log (l : list (nat * msg)) j s0 :
+  (forall e, In e l -> m_item (snd e) = fst e) ->
+  count_occ Nat.eq_dec (map (fun e => m_src (snd e)) (filter (fun e => fst e =? j) l)) s0
+  = countb (fun e => (m_src (snd e) =? s0) && (m_item (snd e) =? j)) l.
+Proof.
+  induction l as [|e l IH]; intros H; [reflexivity|].
+  rewrite countb_cons. simpl filter.
+  assert (E : m_item (snd e) = fst e) by (apply H; left; reflexivity).
+  assert (IH' := IH (fun e' He' => H e' (or_intror He'))).
+  rewrite E. destruct (fst e =? j); simpl.
+  - rewrite IH'. destruct (Nat.eq_dec (m_src (snd e)) s0) as [Q|Q];
+      destruct (Nat.eqb_spec (m_src (snd e)) s0); try contradiction; simpl; lia.
+  - rewrite IH', andb_false_r. reflexivity.
+Qed.
+
+Lemma count_occ_senders P d r s0 :
+  count_occ Nat.eq_dec (senders P d r) s0 = if s0 <? P then cnt r (d s0) else 0.
+Proof.
+  unfold senders. induction P as [|n IH]; [reflexivity|].
+  rewrite seq_S, flat_map_app, count_occ_app, IH. simpl. rewrite app_nil_r.
+  destruct (Nat.eq_dec s0 n) as [->|N].
+  - rewrite count_occ_repeat_eq by reflexivity.
+    destruct (Nat.ltb_spec n n); [lia|]. destruct (Nat.ltb_spec n (S n)); lia.
+  - rewrite count_occ_repeat_neq by exact N.
+    destruct (Nat.ltb_spec s0 n); destruct (Nat.ltb_spec s0 (S n)); lia.
+Qed.
+
+(* a rank that has counted `expected` messages in phase j has received exactly the messages addressed
+   to it in phase j: the sources it saw are the senders, with multiplicity *)
+Theorem phase_receives_exactly P prog st :
+  phases_ok prog = true -> reachable P prog st ->
+  forall r rs j t d, nth_error (ranks st) r = Some rs -> nth_error prog j = Some (Phase t d) ->
+    (j < pc rs \/ (j = pc rs /\ nrecv rs = expected P d r)) ->
+    Permutation (map (fun e => m_src (snd e)) (filter (fun e => fst e =? j) (rlog rs)))
+                (senders P d r)
+    /\ (forall m, In m (net st) -> m_dst m = r -> m_item m <> j).
+Proof.
+  intros Hok Hre r rs j t d Hr Hj Hfin.
+  pose proof (reachable_Inv P prog st (phases_ok_sep _ Hok) Hre) as I.
+  pose proof (dests_at_phase _ _ _ _ Hj) as Hd.
+  assert (Hfull : logged rs ftrue j = expected P d r).
+  { destruct Hfin as [Hlt|[-> Hn]].
+    - rewrite (inv_past _ _ _ I r rs j Hr Hlt), Hd. reflexivity.
+    - destruct (inv_cur _ _ _ I r rs Hr) as [A _]. rewrite A. exact Hn. }
+  pose proof (inv_cons _ _ _ I ftrue r rs j Hr) as Hc.
+  pose proof (sentcount_le P prog st ftrue r j) as Hle. rewrite Hd in Hle.
+  assert (Hz : inflight st ftrue r j = 0) by lia.
+  assert (Hsc : sentcount P prog st ftrue r j = expected P d r) by lia.
+  assert (Hterm : forall s, s < P -> sterm prog ftrue r j s (done_at st s j) = cnt r (d s)).
+  { apply sumn_le_eq; [|exact Hsc].
+    intros s _. unfold sterm. rewrite Hd. destruct (ftrue s && done_at st s j); lia. }
+  split.
+  - apply (Permutation_count_occ Nat.eq_dec). intros s0.
+    rewrite count_occ_senders, count_occ_log.
+    2:{ intros [j' m'] Hin. simpl. apply (inv_log _ _ _ I r rs j' m' Hr Hin). }
+    pose proof (inv_cons _ _ _ I (fun s => s =? s0) r rs j Hr) as Hc0.
+    assert (Hz0 : inflight st (fun s => s =? s0) r j = 0).
+    { enough (inflight st (fun s => s =? s0) r j <= inflight st ftrue r j) by lia.
+      unfold inflight. apply countb_le. intros m _ Hm.
+      apply andb_true_iff in Hm. destruct Hm as [Hm1 Hm2].
+      apply andb_true_iff in Hm1. destruct Hm1 as [_ Hm1]. unfold ftrue. rewrite Hm1, Hm2. reflexivity. }
+    unfold logged in Hc0. rewrite Hz0 in Hc0. simpl in Hc0. rewrite Hc0.
+    unfold sentcount.
+    rewrite (sumn_ext P _ (fun s => if s =? s0 then sterm prog ftrue r j s (done_at st s j) else 0)).
+    2:{ intros s _. unfold sterm, ftrue. destruct (s =? s0); reflexivity. }
+    rewrite (sumn_single P s0 (fun s => sterm prog ftrue r j s (done_at st s j))).
+    destruct (Nat.ltb_spec s0 P) as [L|L]; [apply Hterm; exact L|reflexivity].
+  - intros m Hm Hdst Hit. unfold inflight in Hz.
+    pose proof (countb_pos_in (fun m0 => ftrue (m_src m0) && (m_dst m0 =? r) && (m_item m0 =? j))
+                  (net st) m Hm) as Hp.
+    cbv beta in Hp. rewrite Hdst, Hit, !Nat.eqb_refl in Hp. specialize (Hp eq_refl). lia.
+Qed.
+
+(* ================= T2: no stuck state ================= *)
+
+Lemma min_rank (l : list rstate) : l <> [] ->
+  exists r rs, nth_error l r = Some rs /\ forall q rq, nth_error l q = Some rq -> pc rs <= pc rq.
+Proof.
+  induction l as [|x l IH]; intros Hne; [contradiction|].
+  destruct l as [|y l'].
+  - exists 0, x. split; [reflexivity|]. intros [|q] rq Hq; simpl in Hq.
+    + inversion Hq; subst; lia.
+    + destruct q; discriminate.
+  - destruct IH as (r & rs & Hr & Hmin); [discriminate|].
+    destruct (Nat.le_gt_cases (pc x) (pc rs)) as [L|L].
+    + exists 0, x. split; [reflexivity|]. intros [|q] rq Hq; simpl in Hq.
+      * inversion Hq; subst; lia.
+      * specialize (Hmin q rq Hq). lia.
+    + exists (S r), rs. split; [exact Hr|]. intros [|q] rq Hq; simpl in Hq.
+      * inversion Hq; subst; lia.
+      * exact (Hmin q rq Hq).
+Qed.
+
+Lemma forallb_false_nth {A} (p : A -> bool) l :
+  forallb p l = false -> exists k x, nth_error l k = Some x /\ p x = false.
+Proof.
+  induction l as [|y l IH]; simpl; intros H; [discriminate|].
+  destruct (p y) eqn:E.
+  - destruct (IH H) as (k & x & Hk & Hx). exists (S k), x. split; assumption.
+  - exists 0, y. split; [reflexivity|exact E].
+Qed.
+
+Theorem progress P prog st :
+  phases_ok prog = true -> reachable P prog st ->
+  (exists r rs, nth_error (ranks st) r = Some rs /\ pc rs < length prog) ->
+  exists st', step P prog st st'.
+Proof.
+  intros Hok Hre (r1 & rs1 & Hr1 & Hlt1).
+  pose proof (reachable_Inv P prog st (phases_ok_sep _ Hok) Hre) as I.
+  destruct (min_rank (ranks st)) as (r & rs & Hr & Hmin).
+  { intros E. rewrite E in Hr1. destruct r1; discriminate. }
+  assert (Hlt : pc rs < length prog) by (specialize (Hmin r1 rs1 Hr1); lia).
+  destruct (nth_error prog (pc rs)) as [it|] eqn:Hi.
+  2:{ apply nth_error_None in Hi. lia. }
+  destruct it as [|t d].
+  - (* barrier: everybody has arrived *)
+    eexists. apply spec_to_step. eapply SS_bar; eauto.
+  - destruct (sent rs) eqn:Hs.
+    2:{ eexists. apply spec_to_step. eapply (SS_send P prog st r rs t d (d r)); eauto. }
+    destruct (Nat.eq_dec (nrecv rs) (expected P d r)) as [Hn|Hn].
+    { eexists. apply spec_to_step. eapply SS_adv; eauto. }
+    destruct (inv_cur _ _ _ I r rs Hr) as [Hlog Hle]. rewrite (dests_at_phase _ _ _ _ Hi) in Hle.
+    destruct (forallb (fun x => doneb x (pc rs)) (ranks st)) eqn:Hall.
+    + (* everybody has posted the sends of this phase: a message for r is in flight *)
+      pose proof (inv_cons _ _ _ I ftrue r rs (pc rs) Hr) as Hc.
+      assert (Hsc : sentcount P prog st ftrue r (pc rs) = expected P d r).
+      { unfold sentcount, expected. apply sumn_ext. intros s Hs'.
+        unfold sterm. rewrite (dests_at_phase _ _ _ _ Hi).
+        replace (done_at st s (pc rs)) with true; [reflexivity|].
+        unfold done_at. destruct (nth_error (ranks st) s) as [x|] eqn:Hx.
+        - symmetry. rewrite forallb_nth in Hall. eapply Hall; eauto.
+        - apply nth_error_None in Hx. rewrite (inv_len _ _ _ I) in Hx. lia. }
+      assert (Hpos : 0 < inflight st ftrue r (pc rs)) by lia.
+      destruct (countb_pos_ex _ _ Hpos) as (k & m & Hk & Hm).
+      apply andb_true_iff in Hm. destruct Hm as [Hm Hm2].
+      apply andb_true_iff in Hm. destruct Hm as [_ Hm1].
+      apply Nat.eqb_eq in Hm1. apply Nat.eqb_eq in Hm2.
+      destruct (inv_msg _ _ _ I m (nth_error_In _ _ Hk)) as (rsx & d' & _ & Hit & _ & _).
+      rewrite Hm2, Hi in Hit. inversion Hit; subst t.
+      eexists. apply spec_to_step. eapply SS_recv; eauto. lia.
+    + (* somebody at the same item has not posted its sends yet: it can *)
+      destruct (forallb_false_nth _ _ Hall) as (s & x & Hx & Hd).
+      pose proof (Hmin s x Hx) as Hge.
+      unfold doneb in Hd. apply orb_false_iff in Hd. destruct Hd as [Hd1 Hd2].
+      apply Nat.ltb_ge in Hd1. assert (Hpc : pc x = pc rs) by lia.
+      rewrite Hpc, Nat.eqb_refl in Hd2. simpl in Hd2.
+      eexists. apply spec_to_step. eapply (SS_send P prog st s x t d (d s)); eauto.
+      rewrite Hpc. exact Hi.
+Qed.
+
+(* ================= T2b: termination ================= *)
+
+Lemma skipn_nil {A} k : skipn k (@nil A) = [].
+Proof. destruct k; reflexivity. Qed.
+
+Lemma items_cost_skipn P r prog : forall k,
+  items_cost P r (skipn k prog)
+  = match nth_error prog k with Some it => item_cost P r it | None => 0 end
+    + items_cost P r (skipn (S k) prog).
+Proof.
+  induction prog as [|it p IH]; intros k.
+  - rewrite !skipn_nil. destruct k; reflexivity.
+  - destruct k as [|k]; [reflexivity|]. simpl nth_error. rewrite <- IH. reflexivity.
+Qed.
+
+Lemma rank_work_fresh P prog r k lg ev :
+  rank_work P prog r (mkR k false 0 lg ev) = items_cost P r (skipn k prog).
+Proof.
+  unfold rank_work. cbn [pc sent nrecv]. rewrite (items_cost_skipn P r prog k).
+  destruct (nth_error prog k) as [[|t d]|]; unfold item_cost; lia.
+Qed.
+
+Lemma ranks_work_upd P prog l : forall r r0 rs rs',
+  nth_error l r = Some rs ->
+  rank_work P prog (r0 + r) rs = S (rank_work P prog (r0 + r) rs') ->
+  ranks_work P prog r0 l = S (ranks_work P prog r0 (upd l r rs')).
+Proof.
+  induction l as [|x l IH]; intros [|r] r0 rs rs' Hr Hw; simpl in Hr; try discriminate.
+  - inversion Hr; subst x. rewrite Nat.add_0_r in Hw. simpl. lia.
+  - simpl. rewrite (IH r (S r0) rs rs' Hr); [lia|].
+    replace (S r0 + r) with (r0 + S r) by lia. exact Hw.
+Qed.
+
+(* every step does exactly one unit of the remaining work *)
+Lemma work_step P prog st st' : step P prog st st' -> work P prog st = S (work P prog st').
+Proof.
+  intros Hst. apply step_to_spec in Hst. unfold work.
+  destruct Hst as [r0 rs0 t d ds H0 Hi Hs Hperm | r0 k rs0 t d m H0 Hi Hs Hn Hk Hd Ht
+                  | r0 rs0 t d H0 Hi Hs Hn | r0 rs0 H0 Hi Hall];
+    cbn [ranks]; apply (ranks_work_upd P prog (ranks st) r0 0 rs0 _ H0); cbn [Nat.add].
+  - unfold rank_work. cbn [pc sent nrecv]. rewrite Hi, Hs. lia.
+  - unfold rank_work. cbn [pc sent nrecv]. rewrite Hi, Hs. lia.
+  - rewrite rank_work_fresh. unfold rank_work. rewrite Hi, Hs, Hn. lia.
+  - rewrite rank_work_fresh. unfold rank_work. rewrite Hi. lia.
+Qed.
+
+Lemma work_steps P prog n st st' : steps P prog n st st' -> work P prog st = n + work P prog st'.
+Proof.
+  intros H. induction H as [st|n st st1 st2 H1 _ IH]; [reflexivity|].
+  rewrite (work_step _ _ _ _ H1), IH. lia.
+Qed.
+
+Lemma sumn_shift n g : sumn (S n) g = g 0 + sumn n (fun i => g (S i)).
+Proof.
+  induction n as [|n IH]; [simpl; lia|].
+  change (sumn (S (S n)) g) with (sumn (S n) g + g (S n)). rewrite IH. simpl. lia.
+Qed.
+
+Lemma ranks_work_init P prog n : forall r0,
+  ranks_work P prog r0 (repeat r_init n) = sumn n (fun i => items_cost P (r0 + i) prog).
+Proof.
+  induction n as [|n IH]; intros r0; [reflexivity|].
+  rewrite sumn_shift. cbn [repeat ranks_work]. rewrite IH.
+  unfold r_init. rewrite rank_work_fresh. cbn [skipn]. rewrite Nat.add_0_r.
+  f_equal. apply sumn_ext. intros i _. f_equal. lia.
+Qed.
+
+Lemma work_init P prog : work P prog (init P) = total_work P prog.
+Proof. unfold work, total_work, init. cbn [ranks]. rewrite ranks_work_init. reflexivity. Qed.
+
+(* the number of steps of ANY execution from the initial state is bounded by the total work *)
+Theorem steps_bounded P prog n st :
+  steps P prog n (init P) st -> n + work P prog st = total_work P prog.
+Proof. intros H. rewrite <- work_init. symmetry. apply work_steps. exact H. Qed.
+
+Lemma steps_reachable P prog n st st' :
+  reachable P prog st -> steps P prog n st st' -> reachable P prog st'.
+Proof.
+  intros Hre H. induction H as [st|n st st1 st2 H1 _ IH]; [exact Hre|].
+  apply IH. eapply reach_step; eauto.
+Qed.
+
+Lemma ranks_work_zero P prog l : forall r0,
+  (forall rs, In rs l -> pc rs = length prog) -> ranks_work P prog r0 l = 0.
+Proof.
+  induction l as [|x l IH]; intros r0 H; [reflexivity|].
+  cbn [ranks_work]. rewrite IH by (intros; apply H; right; assumption).
+  unfold rank_work. rewrite (H x (or_introl eq_refl)).
+  replace (nth_error prog (length prog)) with (@None item)
+    by (symmetry; apply nth_error_None; lia).
+  rewrite skipn_all2 by lia. reflexivity.
+Qed.
+
+Lemma finished_work P prog st : finished prog st -> work P prog st = 0.
+Proof.
+  intros H. unfold work. apply ranks_work_zero. intros rs Hin.
+  destruct (In_nth_error _ _ Hin) as [r Hr]. eapply H; eauto.
+Qed.
+
+(* all ranks finished => nothing is left in the network (destinations inside the world) *)
+Theorem finished_net_empty P prog st :
+  phases_ok prog = true -> dests_in_range P prog -> reachable P prog st ->
+  finished prog st -> net st = [].
+Proof.
+  intros Hok Hrange Hre Hfin.
+  pose proof (reachable_Inv P prog st (phases_ok_sep _ Hok) Hre) as I.
+  destruct (net st) as [|m l] eqn:En; [reflexivity|exfalso].
+  assert (Hm : In m (net st)) by (rewrite En; left; reflexivity).
+  destruct (inv_msg _ _ _ I m Hm) as (rsrc & d & Hsrc & Hit & _ & Hin).
+  pose proof (rank_at_lt _ _ _ _ _ I Hsrc) as Hs.
+  pose proof (Hrange _ _ _ _ _ Hit Hs Hin) as Hd.
+  destruct (nth_error (ranks st) (m_dst m)) as [rdst|] eqn:Hdst.
+  2:{ apply nth_error_None in Hdst. rewrite (inv_len _ _ _ I) in Hdst. lia. }
+  assert (Hj : m_item m < length prog) by (apply nth_error_Some; congruence).
+  pose proof (Hfin _ _ Hdst) as Hpc.
+  destruct (phase_receives_exactly P prog st Hok Hre (m_dst m) rdst (m_item m) (m_tag m) d Hdst Hit)
+    as [_ Hno]; [left; lia|].
+  exact (Hno m Hm eq_refl eq_refl).
+Qed.
+
+(* a state without successor is a final state: every rank finished, network empty *)
+Theorem stuck_is_final P prog st :
+  phases_ok prog = true -> reachable P prog st ->
+  (forall st', ~ step P prog st st') ->
+  finished prog st /\ (dests_in_range P prog -> net st = []).
+Proof.
+  intros Hok Hre Hstuck.
+  pose proof (reachable_Inv P prog st (phases_ok_sep _ Hok) Hre) as I.
+  assert (Hfin : finished prog st).
+  { intros r rs Hr. pose proof (inv_pc _ _ _ I r rs Hr) as Hle.
+    destruct (Nat.eq_dec (pc rs) (length prog)) as [E|E]; [exact E|exfalso].
+    destruct (progress P prog st Hok Hre) as [st' Hst'].
+    - exists r, rs. split; [exact Hr|lia].
+    - exact (Hstuck st' Hst'). }
+  split; [exact Hfin|]. intros Hrange. eapply finished_net_empty; eauto.
+Qed.
+
+(* every maximal execution has exactly total_work steps and ends in a final state *)
+Theorem maximal_execution P prog n st :
+  phases_ok prog = true -> steps P prog n (init P) st ->
+  n <= total_work P prog /\
+  ((forall st', ~ step P prog st st') ->
+     n = total_work P prog /\ finished prog st /\ (dests_in_range P prog -> net st = [])).
+Proof.
+  intros Hok Hsteps. pose proof (steps_bounded P prog n st Hsteps) as Hb.
+  split; [lia|]. intros Hstuck.
+  assert (Hre : reachable P prog st) by (eapply steps_reachable; [apply reach_init|exact Hsteps]).
+  destruct (stuck_is_final P prog st Hok Hre Hstuck) as [Hfin Hnet].
+  pose proof (finished_work P prog st Hfin) as Hw.
+  repeat split; [lia|exact Hfin|exact Hnet].
+Qed.
+
+(* every reachable state can be driven to a final state (and, by the bound above, every way of
+   continuing gets there) *)
+Theorem can_finish P prog : phases_ok prog = true ->
+  forall st, reachable P prog st ->
+  exists n st', steps P prog n st st' /\ finished prog st'.
+Proof.
+  intros Hok st. remember (work P prog st) as w eqn:Hw. revert st Hw.
+  induction w as [|w IH]; intros st Hw Hre;
+    pose proof (reachable_Inv P prog st (phases_ok_sep _ Hok) Hre) as I;
+    destruct (forallb (fun rs => length prog <=? pc rs) (ranks st)) eqn:Hall.
+  - exists 0, st. split; [constructor|]. intros r rs Hr.
+    rewrite forallb_nth in Hall. specialize (Hall r rs Hr). apply Nat.leb_le in Hall.
+    pose proof (inv_pc _ _ _ I r rs Hr). lia.
+  - destruct (forallb_false_nth _ _ Hall) as (r & rs & Hr & Hlt). apply Nat.leb_gt in Hlt.
+    destruct (progress P prog st Hok Hre) as [st' Hst']; [exists r, rs; split; assumption|].
+    rewrite (work_step _ _ _ _ Hst') in Hw. discriminate.
+  - exists 0, st. split; [constructor|]. intros r rs Hr.
+    rewrite forallb_nth in Hall. specialize (Hall r rs Hr). apply Nat.leb_le in Hall.
+    pose proof (inv_pc _ _ _ I r rs Hr). lia.
+  - destruct (forallb_false_nth _ _ Hall) as (r & rs & Hr & Hlt). apply Nat.leb_gt in Hlt.
+    destruct (progress P prog st Hok Hre) as [st' Hst']; [exists r, rs; split; assumption|].
+    rewrite (work_step _ _ _ _ Hst') in Hw. inversion Hw as [Hw'].
+    destruct (IH st' Hw') as (n & st'' & Hn & Hf); [eapply reach_step; eauto|].
+    exists (S n), st''. split; [econstructor; eauto|exact Hf].
+Qed.
+
+(* ================= T3: the discipline is satisfiable and needed ================= *)
+
+Lemma run_reachable P prog acts : forall st st',
+  reachable P prog st -> run P prog st acts = Some st' -> reachable P prog st'.
+Proof.
+  induction acts as [|a acts IH]; intros st st' Hre H; simpl in H.
+  - inversion H; subst. exact Hre.
+  - destruct (exec_step P prog st a) as [st1|] eqn:E; [|discriminate].
+    eapply IH; [|exact H]. eapply reach_step; [exact Hre|]. exists a. exact E.
+Qed.
+
+Theorem good_program_ok : phases_ok prog_good = true.
+Proof. reflexivity. Qed.
+
+Theorem bad_program_not_ok : phases_ok prog_bad = false.
+Proof. reflexivity. Qed.
+
+(* without the barrier: rank 2, executing item 0, consumes the message that rank 1 sent in item 1 *)
+Theorem bad_program_confuses_phases :
+  exists st, reachable 3 prog_bad st /\
+    exists rs m, nth_error (ranks st) 2 = Some rs /\ pc rs = 0 /\ In (0, m) (rlog rs) /\ m_item m = 1.
+Proof.
+  destruct (run 3 prog_bad (init 3) bad_schedule) as [st|] eqn:E; [|vm_compute in E; discriminate].
+  exists st. split; [eapply run_reachable; [apply reach_init|exact E]|].
+  vm_compute in E. inversion E; subst st.
+  exists (mkR 0 true 1 [(0, mkMsg 1 2 7 1)] [EvRecvAny 1 7]), (mkMsg 1 2 7 1).
+  repeat split. left; reflexivity.
+Qed.
+
+(* with the barrier the same schedule is not an execution (and, by T1, no schedule confuses phases) *)
+Theorem good_program_blocks_schedule : run 3 prog_good (init 3) bad_schedule = None.
+Proof. vm_compute. reflexivity. Qed.
+
+(* ================= trace conformance: every run is accepted by trace_ok ================= *)
+
+Lemma take_sends_events t ds rest :
+  take_sends (length ds) t (send_events t ds ++ rest) = Some (ds, rest).
+Proof.
+  unfold send_events. induction ds as [|x ds IH]; [reflexivity|].
+  cbn [length map app take_sends]. rewrite Nat.eqb_refl, IH. reflexivity.
+Qed.
+
+Lemma take_recvs_events t ss rest :
+  take_recvs (length ss) t (map (fun s => EvRecvAny s t) ss ++ rest) = Some (ss, rest).
+Proof.
+  induction ss as [|x ss IH]; [reflexivity|].
+  cbn [length map app take_recvs]. rewrite Nat.eqb_refl, IH. reflexivity.
+Qed.
+
+Lemma take_sends_app n t : forall e1 ds e1' e2,
+  take_sends n t e1 = Some (ds, e1') -> take_sends n t (e1 ++ e2) = Some (ds, e1' ++ e2).
+Proof.
+  induction n as [|n IH]; intros e1 ds e1' e2 H; simpl in *.
+  - inversion H; subst. reflexivity.
+  - destruct e1 as [|[dst t'|src t'|] e]; try discriminate. simpl.
+    destruct (t' =? t); [|discriminate].
+    destruct (take_sends n t e) as [[ds0 e0]|] eqn:E; [|discriminate].
+    inversion H; subst. rewrite (IH _ _ _ e2 E). reflexivity.
+Qed.
+
+Lemma take_recvs_app n t : forall e1 ss e1' e2,
+  take_recvs n t e1 = Some (ss, e1') -> take_recvs n t (e1 ++ e2) = Some (ss, e1' ++ e2).
+Proof.
+  induction n as [|n IH]; intros e1 ss e1' e2 H; simpl in *.
+  - inversion H; subst. reflexivity.
+  - destruct e1 as [|[dst t'|src t'|] e]; try discriminate. simpl.
+    destruct (t' =? t); [|discriminate].
+    destruct (take_recvs n t e) as [[ss0 e0]|] eqn:E; [|discriminate].
+    inversion H; subst. rewrite (IH _ _ _ e2 E). reflexivity.
+Qed.
+
+Lemma length_senders P d r : length (senders P d r) = expected P d r.
+Proof.
+  unfold senders, expected. induction P as [|n IH]; [reflexivity|].
+  rewrite seq_S, flat_map_app, app_length, IH. simpl. rewrite app_nil_r, repeat_length. reflexivity.
+Qed.
+
+Lemma firstn_S_nth {A} (l : list A) : forall k x,
+  nth_error l k = Some x -> firstn (S k) l = firstn k l ++ [x].
+Proof.
+  induction l as [|y l IH]; intros [|k] x H; simpl in H; try discriminate.
+  - inversion H; subst. reflexivity.
+  - change (firstn (S (S k)) (y :: l)) with (y :: firstn (S k) l). rewrite (IH k x H). reflexivity.
+Qed.
+
+Lemma trace_ok_app P r p2 e2 : forall p1 e1,
+  trace_ok P p1 r e1 = true -> trace_ok P (p1 ++ p2) r (e1 ++ e2) = trace_ok P p2 r e2.
+Proof.
+  induction p1 as [|it p1 IH]; intros e1 H.
+  - simpl in H. destruct e1; [reflexivity|discriminate].
+  - destruct it as [|t d]; simpl in H |- *.
+    + destruct e1 as [|[dst t'|src t'|] e]; try discriminate. simpl. apply IH. exact H.
+    + destruct (take_sends (length (d r)) t e1) as [[ds e1a]|] eqn:E1; [|discriminate].
+      rewrite (take_sends_app _ _ _ _ _ e2 E1).
+      destruct (perm_b ds (d r)); [|discriminate].
+      destruct (take_recvs (expected P d r) t e1a) as [[ss e1b]|] eqn:E2; [|discriminate].
+      rewrite (take_recvs_app _ _ _ _ _ e2 E2).
+      destruct (perm_b ss (senders P d r)); [|discriminate].
+      apply IH. exact H.
+Qed.
+
+Lemma trace_ok_one_phase P r t d ds ss :
+  Permutation ds (d r) -> Permutation ss (senders P d r) ->
+  trace_ok P [Phase t d] r (send_events t ds ++ map (fun s => EvRecvAny s t) ss) = true.
+Proof.
+  intros Hd Hp. simpl. rewrite <- (Permutation_length Hd), take_sends_events.
+  rewrite (perm_b_complete _ _ Hd).
+  assert (Hl : expected P d r = length ss).
+  { rewrite <- length_senders. symmetry. apply Permutation_length. exact Hp. }
+  rewrite Hl. rewrite <- (app_nil_r (map (fun s => EvRecvAny s t) ss)).
+  rewrite take_recvs_events. rewrite (perm_b_complete _ _ Hp). reflexivity.
+Qed.
+
+(* sources matched by the receives of the current phase, oldest first *)
+Definition cur_srcs (rs : rstate) : list nat :=
+  rev (map (fun e : nat * msg => m_src (snd e)) (filter (fun e => fst e =? pc rs) (rlog rs))).
+
+(* the events of the item a rank is executing *)
+Definition cur_shape (prog : program) (r : nat) (rs : rstate) (cur : list event) : Prop :=
+  match nth_error prog (pc rs) with
+  | Some (Phase t d) =>
+      if sent rs then
+        exists ds, Permutation ds (d r) /\
+                   cur = send_events t ds ++ map (fun s => EvRecvAny s t) (cur_srcs rs)
+      else cur = []
+  | _ => cur = []
+  end.
+
+Definition trace_inv (P : nat) (prog : program) (st : state) : Prop :=
+  forall r rs, rank_at st r rs ->
+    (exists pre cur, rev (revs rs) = pre ++ cur /\
+                     trace_ok P (firstn (pc rs) prog) r pre = true /\ cur_shape prog r rs cur) /\
+    (sent rs = false -> filter (fun e : nat * msg => fst e =? pc rs) (rlog rs) = []).
+
+Lemma filter_none {A} (p : A -> bool) l : (forall x, In x l -> p x = false) -> filter p l = [].
+Proof.
+  induction l as [|y l IH]; intros H; [reflexivity|]. simpl.
+  rewrite (H y (or_introl eq_refl)). apply IH. intros; apply H; right; assumption.
+Qed.
+
+Lemma cur_shape_fresh prog r k lg ev : cur_shape prog r (mkR k false 0 lg ev) [].
+Proof. unfold cur_shape. cbn [pc sent]. destruct (nth_error prog k) as [[|t d]|]; reflexivity. Qed.
+
+Lemma trace_inv_reachable P prog st :
+  phases_ok prog = true -> reachable P prog st -> trace_inv P prog st.
+Proof.
+  intros Hok Hre. induction Hre as [|st st' Hre IH Hst].
+  - intros r rs Hr. rewrite (rank_at_init _ _ _ Hr). split; [|reflexivity].
+    exists [], []. split; [reflexivity|]. split; [reflexivity|]. apply cur_shape_fresh.
+  - pose proof (reachable_Inv P prog st (phases_ok_sep _ Hok) Hre) as I.
+    apply step_to_spec in Hst.
+    destruct Hst as [r0 rs0 t d ds H0 Hi Hs Hperm | r0 k rs0 t d m H0 Hi Hs Hn Hk Hd Ht
+                    | r0 rs0 t d H0 Hi Hs Hn | r0 rs0 H0 Hi Hall];
+      intros r rs Hr; destruct (rank_at_upd _ _ _ _ _ _ _ H0 Hr) as [[-> ->]|[N Hr1]];
+      try (exact (IH r rs Hr1)); destruct (IH r0 rs0 H0) as [(pre & cur & Hev & Hpre & Hcur) Hfil];
+      unfold cur_shape in Hcur; rewrite Hi in Hcur; try rewrite Hs in Hcur.
+    + (* send *)
+      split; [|discriminate]. exists pre, (send_events t ds). split; [|split; [exact Hpre|]].
+      * cbn [revs]. rewrite rev_app_distr, rev_involutive, Hev, Hcur, app_nil_r. reflexivity.
+      * unfold cur_shape, cur_srcs. cbn [pc sent rlog]. rewrite Hi, (Hfil Hs).
+        exists ds. split; [exact Hperm|]. simpl. rewrite app_nil_r. reflexivity.
+    + (* receive *)
+      destruct Hcur as (ds & Hperm & Hcur).
+      split; [|discriminate]. exists pre, (cur ++ [EvRecvAny (m_src m) t]). split; [|split; [exact Hpre|]].
+      * cbn [revs rev]. rewrite Hev, app_assoc. reflexivity.
+      * unfold cur_shape, cur_srcs. cbn [pc sent rlog]. rewrite Hi.
+        exists ds. split; [exact Hperm|]. cbn [filter fst]. rewrite Nat.eqb_refl. cbn [map rev snd].
+        rewrite map_app, Hcur, <- !app_assoc. reflexivity.
+    + (* advance *)
+      destruct Hcur as (ds & Hperm & Hcur).
+      assert (Hnone : filter (fun e : nat * msg => fst e =? S (pc rs0)) (rlog rs0) = []).
+      { apply filter_none. intros [j m'] Hin. simpl.
+        destruct (inv_log _ _ _ I r0 rs0 j m' H0 Hin) as (_ & _ & C & _).
+        destruct (Nat.eqb_spec j (S (pc rs0))); [lia|reflexivity]. }
+      split; [|intros _; exact Hnone].
+      exists (pre ++ cur), []. split; [|split; [|apply cur_shape_fresh]].
+      * cbn [revs]. rewrite Hev, app_nil_r. reflexivity.
+      * cbn [pc]. rewrite (firstn_S_nth _ _ _ Hi).
+        rewrite (trace_ok_app P r0 [Phase t d] cur _ _ Hpre).
+        rewrite Hcur. apply trace_ok_one_phase; [exact Hperm|].
+        destruct (phase_receives_exactly P prog st Hok Hre r0 rs0 (pc rs0) t d H0 Hi) as [Hp _];
+          [right; split; [reflexivity|exact Hn]|].
+        unfold cur_srcs. eapply perm_trans; [apply Permutation_sym; apply Permutation_rev|exact Hp].
+    + (* barrier *)
+      assert (Hnone : filter (fun e : nat * msg => fst e =? S (pc rs0)) (rlog rs0) = []).
+      { apply filter_none. intros [j m'] Hin. simpl.
+        destruct (inv_log _ _ _ I r0 rs0 j m' H0 Hin) as (_ & _ & C & _).
+        destruct (Nat.eqb_spec j (S (pc rs0))); [lia|reflexivity]. }
+      split; [|intros _; exact Hnone].
+      exists (pre ++ [EvBarrier]), []. split; [|split; [|apply cur_shape_fresh]].
+      * cbn [revs rev]. rewrite Hev, Hcur, !app_nil_r. reflexivity.
+      * cbn [pc]. rewrite (firstn_S_nth _ _ _ Hi).
+        rewrite (trace_ok_app P r0 [Barrier] [EvBarrier] _ _ Hpre). reflexivity.
+Qed.
+
+(* the event log of a rank that has finished is accepted by the checker: a log rejected by trace_ok is
+   not the log of any run of the protocol *)
+Theorem finished_trace_ok P prog st :
+  phases_ok prog = true -> reachable P prog st ->
+  forall r rs, nth_error (ranks st) r = Some rs -> pc rs = length prog ->
+    trace_ok P prog r (rev (revs rs)) = true.
+Proof.
+  intros Hok Hre r rs Hr Hpc.
+  destruct (trace_inv_reachable P prog st Hok Hre r rs Hr) as [(pre & cur & Hev & Hpre & Hcur) _].
+  unfold cur_shape in Hcur. rewrite Hpc in Hcur.
+  replace (nth_error prog (length prog)) with (@None item) in Hcur
+    by (symmetry; apply nth_error_None; lia).
+  rewrite Hev, Hcur, app_nil_r. rewrite Hpc, firstn_all in Hpre. exact Hpre.
+Qed.
+
+(* ================= the meaning of trace_ok ================= *)
+
+Lemma take_sends_spec n t : forall e ds e',
+  take_sends n t e = Some (ds, e') -> e = send_events t ds ++ e' /\ length ds = n.
+Proof.
+  induction n as [|n IH]; intros e ds e' H; simpl in H.
+  - inversion H; subst. split; reflexivity.
+  - destruct e as [|[dst t'|src t'|] e0]; try discriminate.
+    destruct (Nat.eqb_spec t' t) as [E|E]; [|discriminate].
+    destruct (take_sends n t e0) as [[ds0 e1]|] eqn:E0; [|discriminate].
+    inversion H; subst. destruct (IH _ _ _ E0) as [A B]. subst e0. split; [reflexivity|simpl; lia].
+Qed.
+
+Lemma take_recvs_spec n t : forall e ss e',
+  take_recvs n t e = Some (ss, e') -> e = map (fun s => EvRecvAny s t) ss ++ e' /\ length ss = n.
+Proof.
+  induction n as [|n IH]; intros e ss e' H; simpl in H.
+  - inversion H; subst. split; reflexivity.
+  - destruct e as [|[dst t'|src t'|] e0]; try discriminate.
+    destruct (Nat.eqb_spec t' t) as [E|E]; [|discriminate].
+    destruct (take_recvs n t e0) as [[ss0 e1]|] eqn:E0; [|discriminate].
+    inversion H; subst. destruct (IH _ _ _ E0) as [A B]. subst e0. split; [reflexivity|simpl; lia].
+Qed.
+
+Theorem trace_ok_iff P r prog : forall evs,
+  trace_ok P prog r evs = true <-> trace_spec P r prog evs.
+Proof.
+  induction prog as [|it p IH]; intros evs; split; intros H.
+  - simpl in H. destruct evs; [constructor|discriminate].
+  - inversion H; subst. reflexivity.
+  - destruct it as [|t d]; simpl in H.
+    + destruct evs as [|[dst t'|src t'|] e]; try discriminate. constructor. apply IH. exact H.
+    + destruct (take_sends (length (d r)) t evs) as [[ds e1]|] eqn:E1; [|discriminate].
+      destruct (perm_b ds (d r)) eqn:Pd; [|discriminate].
+      destruct (take_recvs (expected P d r) t e1) as [[ss e2]|] eqn:E2; [|discriminate].
+      destruct (perm_b ss (senders P d r)) eqn:Ps; [|discriminate].
+      destruct (take_sends_spec _ _ _ _ _ E1) as [-> _].
+      destruct (take_recvs_spec _ _ _ _ _ E2) as [-> _].
+      constructor; [apply perm_b_sound; exact Pd|apply perm_b_sound; exact Ps|apply IH; exact H].
+  - inversion H as [|p' e Hp|t d p' ds ss e Hd Hs Hp]; subst; simpl.
+    + apply IH. exact Hp.
+    + rewrite <- (Permutation_length Hd), take_sends_events, (perm_b_complete _ _ Hd).
+      rewrite <- length_senders, <- (Permutation_length Hs), take_recvs_events, (perm_b_complete _ _ Hs).
+      apply IH. exact Hp.
+Qed.
+
+(* ================= soundness of trace_ok: every accepted log is the log of a run ================= *)
+
+Lemma skipn_nth {A} (l : list A) : forall k x, nth_error l k = Some x -> skipn k l = x :: skipn (S k) l.
+Proof.
+  induction l as [|y l IH]; intros [|k] x H; simpl in H; try discriminate.
+  - inversion H; subst. reflexivity.
+  - change (skipn (S k) (y :: l)) with (skipn k l). rewrite (IH k x H). reflexivity.
+Qed.
+
+Lemma take_recvs_more t : forall l n rest ss e2,
+  take_recvs n t (map (fun s => EvRecvAny s t) l ++ rest) = Some (ss, e2) -> length l < n ->
+  exists s rest' ss', rest = EvRecvAny s t :: rest' /\ ss = l ++ s :: ss'.
+Proof.
+  induction l as [|x l IH]; intros n rest ss e2 H Hl.
+  - destruct n as [|n]; [simpl in Hl; lia|]. cbn [map app take_recvs] in H.
+    destruct rest as [|[dst t'|src t'|] e]; try discriminate.
+    destruct (Nat.eqb_spec t' t) as [E|E]; [|discriminate].
+    destruct (take_recvs n t e) as [[ss0 e0]|]; [|discriminate].
+    inversion H; subst. exists src, e, ss0. split; reflexivity.
+  - destruct n as [|n]; [simpl in Hl; lia|]. cbn [map app take_recvs] in H.
+    rewrite Nat.eqb_refl in H.
+    destruct (take_recvs n t (map (fun s => EvRecvAny s t) l ++ rest)) as [[ss0 e0]|] eqn:E; [|discriminate].
+    inversion H; subst.
+    destruct (IH n rest ss0 e2 E) as (s & rest' & ss' & A & B); [simpl in Hl; lia|].
+    exists s, rest', ss'. split; [exact A|]. rewrite B. reflexivity.
+Qed.
+
+Section Guided.
+Variables (P : nat) (prog : program) (r0 : nat) (evs : list event).
+Hypothesis Hok : phases_ok prog = true.
+Hypothesis Hevs : trace_ok P prog r0 evs = true.
+
+(* rank r0 has so far produced a prefix of evs *)
+Definition guided (st : state) : Prop :=
+  exists rs rest, rank_at st r0 rs /\ evs = rev (revs rs) ++ rest.
+
+Lemma guided_other st r1 rs1 rs' net' :
+  rank_at st r1 rs1 -> r1 <> r0 -> guided st -> guided (mkS (upd (ranks st) r1 rs') net').
+Proof.
+  intros H1 N (rs & rest & Hr & He). exists rs, rest. split; [|exact He].
+  unfold rank_at; simpl. rewrite (nth_error_upd_other _ _ _ _ _ H1); [exact Hr|auto].
+Qed.
+
+Lemma guided_self st rs0 rs' net' rest e rest' :
+  rank_at st r0 rs0 -> evs = rev (revs rs0) ++ rest ->
+  rev (revs rs') = rev (revs rs0) ++ e -> rest = e ++ rest' ->
+  guided (mkS (upd (ranks st) r0 rs') net').
+Proof.
+  intros H0 He Hr Hrest. exists rs', rest'. split; [eapply rank_at_upd_same; eauto|].
+  rewrite Hr, He, Hrest, app_assoc. reflexivity.
+Qed.
+
+(* what is left of evs, read against the rest of the program *)
+Lemma rest_shape st rs rest :
+  reachable P prog st -> rank_at st r0 rs -> evs = rev (revs rs) ++ rest ->
+  exists cur, cur_shape prog r0 rs cur /\ trace_ok P (skipn (pc rs) prog) r0 (cur ++ rest) = true.
+Proof.
+  intros Hre Hr He.
+  destruct (trace_inv_reachable P prog st Hok Hre r0 rs Hr) as [(pre & cur & Hev & Hpre & Hcur) _].
+  exists cur. split; [exact Hcur|].
+  rewrite <- (trace_ok_app P r0 (skipn (pc rs) prog) (cur ++ rest) _ _ Hpre).
+  rewrite firstn_skipn, app_assoc, <- Hev, <- He. exact Hevs.
+Qed.
+
+(* posting sends *)
+Lemma guided_send st s x t d :
+  reachable P prog st -> guided st -> rank_at st s x ->
+  nth_error prog (pc x) = Some (Phase t d) -> sent x = false ->
+  exists st', step P prog st st' /\ guided st'.
+Proof.
+  intros Hre Hg Hx Hi Hs. destruct (Nat.eq_dec s r0) as [->|N].
+  - destruct Hg as (rs & rest & Hr & He).
+    assert (rs = x) by (unfold rank_at in *; congruence). subst rs.
+    destruct (rest_shape st x rest Hre Hr He) as (cur & Hcur & Htr).
+    unfold cur_shape in Hcur. rewrite Hi, Hs in Hcur. subst cur.
+    rewrite (skipn_nth _ _ _ Hi) in Htr. cbn [app trace_ok] in Htr.
+    destruct (take_sends (length (d r0)) t rest) as [[ds e1]|] eqn:E1; [|discriminate].
+    destruct (perm_b ds (d r0)) eqn:Pd; [|discriminate].
+    destruct (take_sends_spec _ _ _ _ _ E1) as [Hrest _].
+    eexists. split.
+    + apply spec_to_step. eapply (SS_send P prog st r0 x t d ds); eauto. apply perm_b_sound; exact Pd.
+    + eapply (guided_self st x _ _ rest (send_events t ds) e1 Hr He); [|exact Hrest].
+      cbn [revs]. rewrite rev_app_distr, rev_involutive. reflexivity.
+  - eexists. split.
+    + apply spec_to_step. eapply (SS_send P prog st s x t d (d s)); eauto.
+    + eapply guided_other; eauto.
+Qed.
+
+Lemma length_cur_srcs st rs :
+  Inv P prog st -> rank_at st r0 rs -> length (cur_srcs rs) = nrecv rs.
+Proof.
+  intros I Hr. unfold cur_srcs. rewrite rev_length, map_length.
+  destruct (inv_cur _ _ _ I r0 rs Hr) as [A _]. rewrite <- A. unfold logged.
+  change (length (filter (fun e : nat * msg => fst e =? pc rs) (rlog rs)))
+    with (countb (fun e : nat * msg => fst e =? pc rs) (rlog rs)).
+  apply countb_ext_in. intros [j m] Hin. simpl.
+  destruct (inv_log _ _ _ I r0 rs j m Hr Hin) as (B & _). rewrite B. reflexivity.
+Qed.
+
+Lemma guided_progress st :
+  reachable P prog st -> guided st ->
+  (exists r rs, rank_at st r rs /\ pc rs < length prog) ->
+  exists st', step P prog st st' /\ guided st'.
+Proof.
+  intros Hre Hg (r1 & rs1 & Hr1 & Hlt1).
+  pose proof (reachable_Inv P prog st (phases_ok_sep _ Hok) Hre) as I.
+  destruct (min_rank (ranks st)) as (r & rs & Hr & Hmin).
+  { intros E. unfold rank_at in Hr1. rewrite E in Hr1. destruct r1; discriminate. }
+  assert (Hlt : pc rs < length prog) by (specialize (Hmin r1 rs1 Hr1); lia).
+  destruct (nth_error prog (pc rs)) as [it|] eqn:Hi.
+  2:{ apply nth_error_None in Hi. lia. }
+  destruct it as [|t d].
+  - (* barrier *)
+    eexists. split; [apply spec_to_step; eapply SS_bar; eauto|].
+    destruct (Nat.eq_dec r r0) as [->|N]; [|eapply guided_other; eauto].
+    destruct Hg as (rs' & rest & Hr' & He).
+    assert (rs' = rs) by (unfold rank_at in *; congruence). subst rs'.
+    destruct (rest_shape st rs rest Hre Hr' He) as (cur & Hcur & Htr).
+    unfold cur_shape in Hcur. rewrite Hi in Hcur. subst cur.
+    rewrite (skipn_nth _ _ _ Hi) in Htr. cbn [app trace_ok] in Htr.
+    destruct rest as [|[dst t'|src t'|] e]; try discriminate.
+    eapply (guided_self st rs _ _ (EvBarrier :: e) [EvBarrier] e Hr' He); reflexivity.
+  - destruct (sent rs) eqn:Hs.
+    2:{ eapply guided_send; eauto. }
+    destruct (Nat.eq_dec (nrecv rs) (expected P d r)) as [Hn|Hn].
+    { eexists. split; [apply spec_to_step; eapply SS_adv; eauto|].
+      destruct (Nat.eq_dec r r0) as [->|N]; [|eapply guided_other; eauto].
+      destruct Hg as (rs' & rest & Hr' & He).
+      assert (rs' = rs) by (unfold rank_at in *; congruence). subst rs'.
+      eapply (guided_self st rs _ _ rest [] rest Hr' He); [cbn [revs]; rewrite app_nil_r|]; reflexivity. }
+    destruct (inv_cur _ _ _ I r rs Hr) as [Hlog Hle]. rewrite (dests_at_phase _ _ _ _ Hi) in Hle.
+    destruct (forallb (fun x => doneb x (pc rs)) (ranks st)) eqn:Hall.
+    + (* everybody has posted the sends of this phase *)
+      assert (Hdone : forall s, s < P -> done_at st s (pc rs) = true).
+      { intros s Hs'. unfold done_at. destruct (nth_error (ranks st) s) as [x|] eqn:Hx.
+        - rewrite forallb_nth in Hall. eapply Hall; eauto.
+        - apply nth_error_None in Hx. rewrite (inv_len _ _ _ I) in Hx. lia. }
+      destruct (Nat.eq_dec r r0) as [->|N].
+      * (* r0 must take the source that evs dictates *)
+        destruct Hg as (rs' & rest & Hr' & He).
+        assert (rs' = rs) by (unfold rank_at in *; congruence). subst rs'.
+        destruct (rest_shape st rs rest Hre Hr' He) as (cur & Hcur & Htr).
+        unfold cur_shape in Hcur. rewrite Hi, Hs in Hcur. destruct Hcur as (ds0 & Hp0 & ->).
+        rewrite (skipn_nth _ _ _ Hi) in Htr. cbn [trace_ok] in Htr.
+        rewrite <- !app_assoc, <- (Permutation_length Hp0), take_sends_events in Htr.
+        rewrite (perm_b_complete _ _ Hp0) in Htr.
+        destruct (take_recvs (expected P d r0) t (map (fun s => EvRecvAny s t) (cur_srcs rs) ++ rest))
+          as [[ss e2]|] eqn:E2; [|discriminate].
+        destruct (perm_b ss (senders P d r0)) eqn:Ps; [|discriminate].
+        pose proof (length_cur_srcs st rs I Hr') as Hlen.
+        destruct (take_recvs_more t _ _ _ _ _ E2) as (s & rest' & ss' & Hrest & Hss); [lia|].
+        apply perm_b_sound in Ps.
+        pose proof (proj1 (Permutation_count_occ Nat.eq_dec _ _) Ps s) as Hcs.
+        rewrite count_occ_senders, Hss, count_occ_app in Hcs. simpl in Hcs.
+        destruct (Nat.eq_dec s s) as [_|Q]; [|contradiction].
+        destruct (Nat.ltb_spec s P) as [HsP|HsP]; [|lia].
+        pose proof (inv_cons _ _ _ I (fun x => x =? s) r0 rs (pc rs) Hr') as Hc.
+        assert (Hsc : sentcount P prog st (fun x => x =? s) r0 (pc rs) = cnt r0 (d s)).
+        { unfold sentcount.
+          rewrite (sumn_ext P _ (fun x => if x =? s then cnt r0 (d x) else 0)).
+          - rewrite sumn_single. destruct (Nat.ltb_spec s P); [reflexivity|lia].
+          - intros x Hx. unfold sterm. rewrite (Hdone x Hx), andb_true_r, (dests_at_phase _ _ _ _ Hi).
+            reflexivity. }
+        assert (Hlg : logged rs (fun x => x =? s) (pc rs) = count_occ Nat.eq_dec (cur_srcs rs) s).
+        { unfold cur_srcs. rewrite count_occ_rev, count_occ_log; [reflexivity|].
+          intros [j m] Hin. simpl. apply (inv_log _ _ _ I r0 rs j m Hr' Hin). }
+        assert (Hpos : 0 < inflight st (fun x => x =? s) r0 (pc rs)) by lia.
+        destruct (countb_pos_ex _ _ Hpos) as (k & m & Hk & Hm).
+        apply andb_true_iff in Hm. destruct Hm as [Hm Hm2].
+        apply andb_true_iff in Hm. destruct Hm as [Hm0 Hm1].
+        apply Nat.eqb_eq in Hm0. apply Nat.eqb_eq in Hm1. apply Nat.eqb_eq in Hm2.
+        destruct (inv_msg _ _ _ I m (nth_error_In _ _ Hk)) as (rsx & d' & _ & Hit & _ & _).
+        rewrite Hm2, Hi in Hit. inversion Hit as [[Ht Hd']].
+        eexists. split.
+        { apply spec_to_step. eapply (SS_recv P prog st r0 k rs t d m); eauto. lia. }
+        eapply (guided_self st rs _ _ rest [EvRecvAny s t] rest' Hr' He); [|exact Hrest].
+        cbn [revs rev]. rewrite Hm0. reflexivity.
+      * (* another rank: any matching message will do *)
+        pose proof (inv_cons _ _ _ I ftrue r rs (pc rs) Hr) as Hc.
+        assert (Hsc : sentcount P prog st ftrue r (pc rs) = expected P d r).
+        { unfold sentcount, expected. apply sumn_ext. intros s Hs'.
+          unfold sterm. rewrite (dests_at_phase _ _ _ _ Hi), (Hdone s Hs'). reflexivity. }
+        assert (Hpos : 0 < inflight st ftrue r (pc rs)) by lia.
+        destruct (countb_pos_ex _ _ Hpos) as (k & m & Hk & Hm).
+        apply andb_true_iff in Hm. destruct Hm as [Hm Hm2].
+        apply andb_true_iff in Hm. destruct Hm as [_ Hm1].
+        apply Nat.eqb_eq in Hm1. apply Nat.eqb_eq in Hm2.
+        destruct (inv_msg _ _ _ I m (nth_error_In _ _ Hk)) as (rsx & d' & _ & Hit & _ & _).
+        rewrite Hm2, Hi in Hit. inversion Hit as [[Ht Hd']].
+        eexists. split.
+        { apply spec_to_step. eapply (SS_recv P prog st r k rs t d m); eauto. lia. }
+        eapply guided_other; eauto.
+    + (* somebody at the same item has not posted its sends yet *)
+      destruct (forallb_false_nth _ _ Hall) as (s & x & Hx & Hd).
+      pose proof (Hmin s x Hx) as Hge.
+      unfold doneb in Hd. apply orb_false_iff in Hd. destruct Hd as [Hd1 Hd2].
+      apply Nat.ltb_ge in Hd1. assert (Hpc : pc x = pc rs) by lia.
+      rewrite Hpc, Nat.eqb_refl in Hd2. simpl in Hd2.
+      eapply (guided_send st s x t d); eauto. rewrite Hpc. exact Hi.
+Qed.
+
+Lemma guided_finish : forall w st, work P prog st = w -> reachable P prog st -> guided st ->
+  exists st', reachable P prog st' /\ finished prog st' /\ guided st'.
+Proof.
+  induction w as [|w IH]; intros st Hw Hre Hg;
+    pose proof (reachable_Inv P prog st (phases_ok_sep _ Hok) Hre) as I;
+    destruct (forallb (fun rs => length prog <=? pc rs) (ranks st)) eqn:Hall.
+  - exists st. split; [exact Hre|]. split; [|exact Hg]. intros r rs Hr.
+    rewrite forallb_nth in Hall. specialize (Hall r rs Hr). apply Nat.leb_le in Hall.
+    pose proof (inv_pc _ _ _ I r rs Hr). lia.
+  - destruct (forallb_false_nth _ _ Hall) as (r & rs & Hr & Hlt). apply Nat.leb_gt in Hlt.
+    destruct (guided_progress st Hre Hg) as (st' & Hst' & _); [exists r, rs; split; assumption|].
+    rewrite (work_step _ _ _ _ Hst') in Hw. discriminate.
+  - exists st. split; [exact Hre|]. split; [|exact Hg]. intros r rs Hr.
+    rewrite forallb_nth in Hall. specialize (Hall r rs Hr). apply Nat.leb_le in Hall.
+    pose proof (inv_pc _ _ _ I r rs Hr). lia.
+  - destruct (forallb_false_nth _ _ Hall) as (r & rs & Hr & Hlt). apply Nat.leb_gt in Hlt.
+    destruct (guided_progress st Hre Hg) as (st' & Hst' & Hg'); [exists r, rs; split; assumption|].
+    rewrite (work_step _ _ _ _ Hst') in Hw. inversion Hw as [Hw'].
+    apply (IH st' Hw'); [eapply reach_step; eauto|exact Hg'].
+Qed.
+
+Lemma trace_ok_sound_section : r0 < P ->
+  exists st rs, reachable P prog st /\ finished prog st /\
+                nth_error (ranks st) r0 = Some rs /\ rev (revs rs) = evs.
+Proof.
+  intros Hr0.
+  destruct (guided_finish (work P prog (init P)) (init P) eq_refl (reach_init P prog))
+    as (st & Hre & Hfin & (rs & rest & Hr & He)).
+  { exists r_init, evs. split; [|reflexivity].
+    unfold rank_at, init; simpl. apply nth_error_repeat. exact Hr0. }
+  exists st, rs. repeat split; try assumption.
+  pose proof (finished_trace_ok P prog st Hok Hre r0 rs Hr (Hfin r0 rs Hr)) as Htr.
+  pose proof (trace_ok_app P r0 [] rest prog (rev (revs rs)) Htr) as Happ.
+  rewrite app_nil_r, <- He, Hevs in Happ. simpl in Happ.
+  destruct rest; [|discriminate]. rewrite app_nil_r in He. symmetry. exact He.
+Qed.
+
+End Guided.
+
+(* trace_ok is exact: an accepted log of rank r is the log of r in some complete run *)
+Theorem trace_ok_sound P prog r evs :
+  phases_ok prog = true -> r < P -> trace_ok P prog r evs = true ->
+  exists st rs, reachable P prog st /\ finished prog st /\
+                nth_error (ranks st) r = Some rs /\ rev (revs rs) = evs.
+Proof. intros Hok Hr He. exact (trace_ok_sound_section P prog r evs Hok He Hr). Qed.
